@@ -188,7 +188,7 @@ def oracle_atom(exp: Expect, tbl, z, a, na, real_data=True):
         # an element listed in the composition table: abundances sum to 100 %, the atomic
         # weight is the abundance-weighted isotope mass within the stated uncertainty
         if z in exp.sections and z != 0 and exp.sections[z] and exp.wellkeyed:
-            isos = [el[i] for i in el.isotopes]
+            isos = [el[i] for i in el.isotopes if (z, i) in exp.iso]
             tot = P.observe(lambda: math.fsum(i.abundance for i in isos))
             if not (P.isfinite(tot) and abs(tot - 100.0) < 1e-9):
                 bad.append(("sum of abundances", "100", P.tok(tot)))
@@ -370,7 +370,8 @@ def gen_tables(rng, symbols, real_dens):
         if z == 1 and rng.random() < 0.6:
             As = sorted(set(As) | {rng.choice([2, 3])})
         isos[z] = As
-        avg = gen_unc_text(rng, ["valunc", "valunc", "nominal", "range", "plain"], quirk)
+        # (a `[lo,hi]` range cannot appear in the comma-separated isotope table)
+        avg = gen_unc_text(rng, ["valunc", "valunc", "nominal", "plain"], quirk)
         for a in As:
             avg_i = avg
             if rng.random() < 0.15:
@@ -379,7 +380,10 @@ def gen_tables(rng, symbols, real_dens):
             if rng.random() < 0.03:
                 avg_i = ""
                 tags.add("avg-empty")
-            m = gen_unc_text(rng, ["valunc", "valunc", "valunc", "plain", "nominal", "range"], quirk)
+            m = gen_unc_text(rng, ["valunc", "valunc", "valunc", "plain", "nominal"], quirk)
+            if rng.random() < 0.01:
+                m = gen_unc_text(rng, ["range"])
+                tags.add("err-range-in-csv")
             p = rng.choice(["", "", "12.5(3)"])
             rows.append((z, a, "%d-%s-%d,%s,%s,%s" % (z, symbols[z], a, m, p, avg_i)))
     r = rng.random()
